@@ -1101,6 +1101,9 @@ def remove_redundant_transpose_reduce_ir(graph: ir.Graph) -> None:
                         [c.name for c in reducer_consumers],
                     )
                 continue
+            if _value_is_graph_output(graph, reducer_out_val):
+                # The reduced value itself is a model output; it must keep its layout.
+                continue
             if reducer_consumers[0] is not node:
                 # Should be covered by consumers scan logic, but double check
                 continue
@@ -1264,6 +1267,12 @@ def remove_redundant_transpose_add_forests_ir(graph: ir.Graph) -> None:
             if match is None:
                 continue
             add_nodes, perm_fwd, _perm_inv, input_transposes, output_transposes = match
+            if any(
+                _value_is_graph_output(graph, _node_output(add_node))
+                for add_node in add_nodes
+            ):
+                # An Add result that is also a model output must keep its layout.
+                continue
 
             # Rewrite Add inputs from Transpose(perm_fwd)(x) to x.
             for add_node in add_nodes:
@@ -1432,6 +1441,11 @@ def remove_redundant_transpose_pairs_ir(graph: ir.Graph) -> None:
                 or not _is_inverse_perm(perm_fwd, perm_inv)
             ):
                 continue
+            if any(
+                _value_is_graph_output(graph, _node_output(add_node))
+                for add_node in add_chain
+            ):
+                continue
 
             # Rewrite: move Add chain to pre-transpose layout (NCHW).
             for node in add_chain:
@@ -1529,6 +1543,11 @@ def remove_redundant_transpose_pairs_ir(graph: ir.Graph) -> None:
                 continue
             if t2_node not in output_transposes:
                 continue
+            if any(
+                _value_is_graph_output(graph, _node_output(elem_node))
+                for elem_node in elem_nodes
+            ):
+                continue
 
             # Rewrite: replace transpose outputs feeding elementwise nodes with
             # their pre-transpose sources.
@@ -1566,7 +1585,9 @@ def remove_redundant_transpose_pairs_ir(graph: ir.Graph) -> None:
                 t_out = _node_output(t_node)
                 if t_out is None:
                     continue
-                if not _consumer_nodes(live_nodes, t_out):
+                if not _consumer_nodes(
+                    live_nodes, t_out
+                ) and not _value_is_graph_output(graph, t_out):
                     graph.remove(t_node)
 
             changed = True
@@ -1594,6 +1615,12 @@ def remove_redundant_transpose_pairs_ir(graph: ir.Graph) -> None:
                 continue
             t1_out = _node_output(T1)
             if t1_out is None:
+                continue
+            if _value_is_graph_output(graph, t1_out) or any(
+                _value_is_graph_output(graph, _node_output(elem_node))
+                for elem_node in elem_nodes
+            ):
+                # Values observed as model outputs must keep their layout.
                 continue
             ok = True
             for consumer in _consumer_nodes(nodes, t1_out):
@@ -1680,6 +1707,13 @@ def remove_redundant_transpose_pairs_ir(graph: ir.Graph) -> None:
                         T2 = m
                     break
                 if T2 is None:
+                    i += 1
+                    continue
+                if _value_is_graph_output(graph, T1_out) or any(
+                    _value_is_graph_output(graph, _node_output(allowed_node))
+                    for allowed_node in allowed_nodes
+                ):
+                    # Values observed as model outputs must keep their layout.
                     i += 1
                     continue
                 perm1 = _transpose_perm(T1)
@@ -1833,6 +1867,12 @@ def remove_redundant_reshape_pairs_ir(graph: ir.Graph) -> None:
             safe_chain = True
 
             t1_out = _node_output(T1)
+            if _value_is_graph_output(graph, t1_out) or any(
+                _value_is_graph_output(graph, _node_output(chain_node))
+                for chain_node in allowed_fwd
+            ):
+                # Intermediates that are model outputs must keep their shape.
+                safe_chain = False
             if t1_out is not None:
                 for consumer in _consumer_nodes(nodes, t1_out):
                     if consumer in chain_nodes or consumer is T2:
